@@ -226,8 +226,6 @@ def exponent_probe(ctx, fam, params, us):
                                   "model's drift, diffusion coefficient, density and this representation"},
                          cls=cls, mirrors_model=mirrors)
                 break
-
-
     return quad
 
 
@@ -260,7 +258,6 @@ def exponent_after_walk_probe(ctx, fam, params, walk, q, spot, r, d):
     sigma = float(trip.sigma)
     try:
         psi0 = [complex(lm.levy_exponent(u)) for u in us]
-        psi0e = [complex(em.levy_exponent(u)) for u in us]
     except Exception as e:
         ctx.fail("oracle", "c10.exponent.raises", desc, {"exception": repr(e)[:300]}, cls=cls)
         return
@@ -276,7 +273,8 @@ def exponent_after_walk_probe(ctx, fam, params, walk, q, spot, r, d):
         rep_prev = trip.representation
         a_now = float(trip.a)
         for k, u in enumerate(us):
-            for which, model, ref in (("levy_model", lm, psi0[k]), ("exponential model", em, psi0e[k])):
+            # (the exponential wrapper itself has no levy_exponent_pure_jump; its exponent is its levy_model's)
+            for which, model, ref in (("levy_model", lm, psi0[k]),):
                 now = complex(model.levy_exponent(u))
                 tol = 1e-12 * (1 + abs(ref) + abs(u) * (abs(a_now) + abs(q["mid"] or 0.0) + abs(q["tails"])))
                 track(ctx, "exponent_after_walk.unchanged", abs(now - ref), tol)
